@@ -345,6 +345,32 @@ def run(repo: Repo, rep: Report, tier: str) -> None:
             if assigned and assigned <= names and disj and not ok_raise:
                 ok_raise = True
                 rep.ok("R10.5", f"{gen.module.relpath}:generate differences raise", f"`{norm(t.ast)}` covers every _show_diffs result and dominates `raise GenerationError`", gen.loc(r.ast))
+    if not ok_raise and assigned:
+        # the test reads a flag that is bound on several paths (a comparison helper with an early return, written out): every binding
+        # must be a disjunction over all the results computed on the way to it
+        GL5 = _L10(gen.node)
+        res_nodes = {v: [n for n in cfg.nodes if n.kind == "stmt" and isinstance(n.ast, ast.Assign) and not n.copy and isinstance(n.ast.targets[0], ast.Name)
+                         and n.ast.targets[0].id == v and isinstance(n.ast.value, ast.Call) and dotted(n.ast.value.func) == "self._show_diffs"] for v in assigned}
+        for r in raises:
+            for t0 in [cfg.nodes[d] for d in dom[r.id] if cfg.nodes[d].kind == "test"]:
+                if not isinstance(t0.ast, ast.Name):
+                    continue
+                flag = t0.ast.id
+                bind = [n for n in cfg.nodes if n.kind == "stmt" and isinstance(n.ast, ast.Assign) and not n.copy and isinstance(n.ast.targets[0], ast.Name) and n.ast.targets[0].id == flag]
+                if len(bind) < 2:
+                    continue
+                good = True
+                for b_ in bind:
+                    e_ = GL5.inline(b_.ast.value, stop=tuple(assigned))
+                    names_ = {x.id for x in ast.walk(e_) if isinstance(x, ast.Name)}
+                    before = {v for v, ns in res_nodes.items() if any(b_.id in cfg.reachable(n.id) for n in ns)}
+                    shape = isinstance(e_, ast.Name) or (isinstance(e_, ast.BoolOp) and isinstance(e_.op, ast.Or) and all(isinstance(v, ast.Name) for v in e_.values))
+                    if not (before and before <= names_ and shape):
+                        good = False
+                if good and not ok_raise:
+                    ok_raise = True
+                    rep.ok("R10.5", f"{gen.module.relpath}:generate differences raise",
+                           f"`{flag}` is bound {len(bind)}x, each time to a disjunction over every _show_diffs result computed so far, and dominates `raise GenerationError`", gen.loc(r.ast))
     if not ok_raise:
         rep.violation("R10.5", f"{gen.module.relpath}:generate differences raise", f"{gen.fq}|diff-raise",
                       "a difference reported by _show_diffs does not lead to `raise GenerationError` (some result is ignored)", gen.loc(sw))
